@@ -11,6 +11,7 @@ import LuaHelper.Driver.OutlineOps
 import LuaHelper.Driver.ModOps
 import LuaHelper.Driver.AnnotOps
 import LuaHelper.Driver.ClosureOps
+import LuaHelper.Driver.DiagOps
 open LuaHelper
 
 def dispatch (cmd : String) (args : List String) : String :=
@@ -48,6 +49,9 @@ def dispatch (cmd : String) (args : List String) : String :=
   | some r => r
   | none =>
   match ClosureOps.handle cmd args with
+  | some r => r
+  | none =>
+  match DiagOps.handle cmd args with
   | some r => r
   | none => "bad-op"
 
